@@ -58,15 +58,12 @@ def main():
         lines.append("| %s | %d | %d | %.1f | %s |" % (f[len("/repo/"):], n, c, 100.0 * c / max(1, n), _ranges(unc)))
     lines.append("| **total** | %d | %d | %.1f | |" % (tot, cov, 100.0 * cov / max(1, tot)))
     lines += ["", "## Why the remaining lines are not executed", "",
-              "* `builder.rs` 33-38, 71-73: `PartialEq for Keypair` and `Debug for Builder` bodies (no property concerns them; `Debug` of the state types is exercised).",
               "* `builder.rs` 264: `ValidatePskLengths` - unreachable through the public API (`psk()` takes `&[u8; 32]`).",
               "* `cipherstate.rs` 38/61/140/160 (`MissingKeyMaterial` in en/decrypt), 103 (`ValidateCipherTypes`): defensive branches; a transport cipher always has a key after `Split()`, and both ciphers come from the same resolver call. They become reachable only under a defect (e.g. the builder prerequisite tables being wrong - seeded change C12m1 drives 254/174 of handshakestate.rs).",
-              "* `handshakestate.rs` 73 (`ValidateKeyLengths`: s and e always come from the same DH), 89-125 (`MissingKeyMaterial` for pre-message keys: the builder refuses first), 174/254 (same, for DH and `s` tokens), 327 (the post-encryption 65535 check, dead since fix ea01672 tests the limit before encrypting), 549-551 (`Debug` body).",
-              "* `error.rs` 165-181: `Display` arms for error kinds that no workload produces as a value that is then printed (Display is called on every error the driver sees; `Dh`, `Init`... arms are covered, `Kem` is feature-gated).",
+              "* `handshakestate.rs` 73 (`ValidateKeyLengths`: s and e always come from the same DH), 89-125 (`MissingKeyMaterial` for pre-message keys: the builder refuses first), 174/254 (same, for DH and `s` tokens), 327 (the post-encryption 65535 check, dead since fix ea01672 tests the limit before encrypting).",
               "* `params/patterns.rs` 237, 244-246: `is_fallback()` (never called by the crate itself) and a closing brace.",
               "* `resolvers/default.rs` 83, 96: `_ => None` arms that are unreachable when every primitive feature is enabled (cfg A).",
               "* `resolvers/ring.rs` 59-65: `next_u32` / `next_u64` of the ring RNG (snow only ever calls `fill_bytes`).",
-              "* `transportstate.rs` / `stateless_transportstate.rs` 196-198 / 156-158: `Debug` bodies' closing lines.", ""]
     with open(os.path.join(V, "REACH.md"), "w") as fh:
         fh.write("\n".join(lines) + "\n")
     print("\n".join(lines))
